@@ -162,6 +162,15 @@ def judge_c08(ctx, L, t, cc, enc, data, how="", value_only=False):
     if j:
         ctx.problem(f"C08:tiling:{j[0]}", f"{j[1]}; {describe(t, cc, enc, data)}", pl)
         return False
+    if not kinds:
+        # warn mode saw no problem at all: then there must be none, i.e. the reference (strict) interpretation accepts.
+        # (C07 ties warn mode to strict mode of the same tree; this ties it to the independent model, so a problem that
+        # both modes stop reporting is still noticed.)
+        r0 = ref_decode(L, t, data, command_code=cc, enc=enc)
+        if not r0.accepted and r0.kinds != ["undefined"]:
+            ctx.problem(f"C08:silent-on:{'+'.join(r0.kinds)}", f"warn mode decoded the input without any warning, but it has a problem: {[{k: (v.hex() if isinstance(v, bytes) else v) for k, v in o.items() if k not in ('consumed', 'offset', 'width')} for o in r0.outcomes][:2]}; {describe(t, cc, enc, data)}", pl)
+            return False
+        ctx.count("silent-and-model-accepts")
     if value_only or (kinds and all(k == "value" for k in kinds)):
         # lenient field-by-field interpretation with one warning directly after each offending event
         ref = ref_decode(L, t, data, command_code=cc, enc=enc, check_values=False)
